@@ -1912,7 +1912,9 @@ def part_plt(ctx, h, objdir):
     extra = os.path.join(w, "libc10t.so")
     open(os.path.join(w, "t.cc"), "w").write(R_B_CC % {"nb": 2})
     sh(["g++", "-pg", "-O0", "-fPIC", "-shared", "-o", extra, "t.cc", "-ldl"], cwd=w, check=True)
-    part_elftables(ctx, h, objdir, [os.path.join(w, c[0]) for c in cases[:ctx.n(4, 30)]] + [extra, os.path.join(w, "noplt"), os.path.join(w, "noplt_pie")])
+    label_files = part_labels(ctx, h, objdir, w)
+    part_elftables(ctx, h, objdir, [os.path.join(w, c[0]) for c in cases[:ctx.n(3, 30)]] + [extra, os.path.join(w, "noplt"), os.path.join(w, "noplt_pie")]
+                   + label_files)
     # recordings: every call through a PLT slot is shown under the slot's name
     for name, exe, f, funcs, pie in recs_todo:
         d = os.path.join(w, "data-" + name)
@@ -2130,6 +2132,73 @@ def part_elftables(ctx, h, objdir, files):
         path, f, tmod = cases[m[0]]
         ctx.violation("model module_table and load_module_symtab disagree (%d files)" % len(m),
                       {"part": "T", "file": os.path.basename(path), "impl_table": [["%x" % a, sz, t, n.decode("latin1")] for a, sz, t, n in tmod][:80]}, False)
+
+
+
+# ELF objects whose .symtab has NOTYPE / size-0 entries at the address of a function, directly before it
+# (assembler labels, region markers), and aliases before and after: the alias rule of load_symtab must compare with
+# the last ACCEPTED entry only
+def gen_label_source(rng, nfun):
+    kinds = ["plain", "label", "glabel", "szero", "alias_after", "objlabel"]
+    out = ["#include <stdio.h>", "volatile long c10l_sink;"]
+    names = []
+    for i in range(nfun):
+        k = "label" if i == 0 else rng.choice(kinds)
+        fn = "c10l_f%d" % i
+        static = rng.random() < 0.5 and k != "alias_after"
+        if k == "label":
+            out.append('__asm__(".text\\n\\t.p2align 4\\nc10l_lbl%d:\\n");' % i)
+        elif k == "glabel":
+            out.append('__asm__(".text\\n\\t.p2align 4\\n\\t.globl c10l_glbl%d\\nc10l_glbl%d:\\n");' % (i, i))
+        elif k == "szero":
+            out.append('__asm__(".text\\n\\t.p2align 4\\n\\t.type c10l_sz%d,@function\\nc10l_sz%d:\\n");' % (i, i))
+        elif k == "objlabel":
+            out.append('__asm__(".text\\n\\t.p2align 4\\n\\t.type c10l_ob%d,@object\\nc10l_ob%d:\\n");' % (i, i))
+        out.append("%sint %s(int x) { c10l_sink += x; return x + %d; }" % ("static " if static else "", fn, i))
+        if k == "alias_after":
+            out.append("int c10l_al%d(int) __attribute__((alias(\"%s\")));" % (i, fn))
+        names.append((fn, k, static))
+    out.append("int main(int argc, char **argv)\n{\n\tint r = 0;")
+    for fn, k, static in names:
+        out.append("\tr += %s(argc);" % fn)
+    out.append("\treturn r == 12345;\n}")
+    return "\n".join(out) + "\n", names
+
+
+def part_labels(ctx, h, objdir, w):
+    """returns the list of built files; records one of them and checks that every function is shown by name"""
+    rng = ctx.rng
+    uft = os.path.join(objdir, "uftrace")
+    files = []
+    for k in range(ctx.n(3, 12)):
+        src, names = gen_label_source(rng, rng.randrange(3, 8))
+        name = "lbl%d" % k
+        open(os.path.join(w, name + ".c"), "w").write(src)
+        mode = ["nonpie", "pie", "so"][k % 3]
+        fl = {"nonpie": ["-fno-pie", "-no-pie"], "pie": ["-fPIE", "-pie"], "so": ["-fPIE", "-pie"]}[mode]
+        sh(["gcc", "-pg", "-O0", "-fno-toplevel-reorder"] + fl + ["-o", name, name + ".c"], cwd=w, check=True)
+        path = os.path.join(w, name)
+        files.append(path)
+        kinds = sorted(set(kk for _, kk, _ in names))
+        ctx.case(key=("T", "labels", src), tags=["T:label-before-function"] + ["T:" + kk for kk in kinds], size=len(names))
+        if k == 0 or ctx.thorough():
+            d = os.path.join(w, "data-" + name)
+            rc, out, err = sh(["timeout", "40", uft, "record", "--no-pager", "--no-event", "--libmcount-path=" + objdir, "-d", d, "./" + name],
+                              timeout=60, cwd=w)
+            if rc == 124 or not os.path.exists(os.path.join(d, "task.txt")):
+                ctx.broken("labels(%s): uftrace record failed (rc=%d): %s" % (name, rc, (out + err)[-300:]))
+                continue
+            rc, rout, rerr = datadir.uftrace(objdir, "replay", d, ["-f", "tid,addr,time,module", "--demangle=no"])
+            shown = [r[4] for r in parse_replay_fields(rout)]
+            want = [fn for fn, kk, st in names if kk != "alias_after"] + ["main"]
+            raw = [n for n in shown if n.startswith("<")]
+            missing = [fn for fn in want if fn not in shown]
+            ctx.case(key=("T", "labels-record", name), tags=["T:label-recording"], size=len(shown))
+            if raw or missing:
+                ctx.violation("a function that follows a label / size-0 symbol of the same address is not shown by name "
+                              "(recording of a program with assembler labels)",
+                              {"part": "T", "exe": name, "source": src, "raw": raw, "missing": missing, "replay": rout[-1500:]}, True)
+    return files
 
 
 def p_replay_obj(c):
